@@ -40,9 +40,63 @@ func (p *Prog) fc(r *Report, fn *ssa.Function, label string, ab [][2]string) *FC
 
 func (c *FC) sh(s string) string {
 	for _, a := range c.ab {
+		if i := strings.Index(a[1], "§"); i >= 0 {
+			s = replaceBalanced(s, a[1][:i], a[1][i+len("§"):], a[0])
+			continue
+		}
 		s = strings.ReplaceAll(s, a[1], a[0])
 	}
 	return s
+}
+
+// replaceBalanced replaces every occurrence of prefix <balanced text> suffix by name.
+// prefix must end with an opening bracket and suffix start with its closing bracket:
+// "(*types.Message).Parse(§)" abbreviates that call whatever its arguments are (the
+// arguments are then judged by a separate obligation where a property depends on them).
+func replaceBalanced(s, prefix, suffix, name string) string {
+	var out strings.Builder
+	for {
+		i := strings.Index(s, prefix)
+		if i < 0 {
+			out.WriteString(s)
+			return out.String()
+		}
+		// prefix must not be preceded by an identifier character (avoid matching inside a longer name)
+		depth := 1
+		j := i + len(prefix)
+		inStr := false
+		for j < len(s) && depth > 0 {
+			ch := s[j]
+			if inStr {
+				if ch == '\\' {
+					j++
+				} else if ch == '"' {
+					inStr = false
+				}
+				j++
+				continue
+			}
+			switch ch {
+			case '"':
+				inStr = true
+			case '(', '[', '{':
+				depth++
+			case ')', ']', '}':
+				depth--
+			}
+			if depth > 0 {
+				j++
+			}
+		}
+		if depth != 0 || !strings.HasPrefix(s[j:], suffix) {
+			out.WriteString(s[:i+len(prefix)])
+			s = s[i+len(prefix):]
+			continue
+		}
+		out.WriteString(s[:i])
+		out.WriteString(name)
+		s = s[j+len(suffix):]
+	}
 }
 
 func (c *FC) term(v ssa.Value, at ssa.Instruction) string {
